@@ -400,6 +400,25 @@ def all_epochs(plan: dict) -> list[list[int]]:
     return eps
 
 
+IDENT_POOL = ["zeta", "alpha", "mid", "beta_kernel", "k9", "k10", "Z", "a_first", "omega", "kernel_1", "kernel_10"]
+
+
+def kernel_ids(plan: dict) -> list[str]:
+    """Kernel identifiers of a plan: user-assigned names (whose alphabetical order differs from the
+    configured order) or the builder's default kernel_00, kernel_01, ..."""
+    ids = plan.get("idents")
+    K = len(plan["kernels"])
+    if ids:
+        return list(ids[:K])
+    return [f"kernel_{k:02d}" for k in range(K)]
+
+
+def gen_idents(rng, K: int):
+    if rng.random() < 0.5:
+        return None
+    return rng.sample(IDENT_POOL, K)
+
+
 def tracked_keys(plan: dict) -> list[str]:
     keys = [s["name"] for k in plan["kernels"] for s in k["keys"]]
     keys += list(plan.get("included", []))
@@ -419,7 +438,7 @@ def build(plan: dict):
     via = plan.get("via", "engine")
     if via == "engine":
         for ki, ker in enumerate(kernels):
-            ker.identifier = f"kernel_{ki:02d}"
+            ker.identifier = kernel_ids(plan)[ki]
             ker.set_model(model)
         for q in qgs:
             q.set_model(model)
@@ -454,7 +473,9 @@ def build(plan: dict):
                 raise SutError(f"set_initial_values(states, multiple_chains=True) raised {type(e).__name__}: {e}")
         else:
             b.set_initial_values(initial_state(plan, 0))
-        for ker in kernels:
+        for ki, ker in enumerate(kernels):
+            if plan.get("idents"):
+                ker.identifier = kernel_ids(plan)[ki]
             b.add_kernel(ker)
         for q in qgs:
             b.add_quantity_generator(q)
@@ -759,6 +780,9 @@ def gen_schedule(rng, max_epochs=6, max_dur=24, thin_bias=0.6, allow_no_warmup=T
     for i in range(n_post):
         dur = base * rng.randint(1, max(1, max_dur // base))
         thin = rng.choice(divisors(dur)) if rng.random() < thin_bias else 1
+        if i > 0 and rng.random() < 0.4:
+            # "sample some more": the same posterior configuration again
+            dur, thin = eps[-1][1], eps[-1][2]
         eps.append([4, dur, thin])
     g = 0
     for e in eps:
@@ -883,6 +907,8 @@ def shrink_candidates_E(plan: dict):
             p = cp()
             dropped = [s["name"] for s in p["kernels"][i]["keys"]]
             del p["kernels"][i]
+            if p.get("idents"):
+                p["idents"] = [x for j, x in enumerate(p["idents"]) if j != i]
             p["included"] = [k for k in p.get("included", []) if k not in dropped]
             p["excluded"] = [k for k in p.get("excluded", []) if k not in dropped]
             if "errors" in p:
@@ -891,6 +917,10 @@ def shrink_candidates_E(plan: dict):
     if plan.get("qgen"):
         p = cp()
         p["qgen"] = 0
+        yield p
+    if plan.get("idents"):
+        p = cp()
+        p["idents"] = None
         yield p
     # shorter epochs / no thinning
     if plan["script"] == [["all"]]:
